@@ -70,7 +70,11 @@ type Exchange struct {
 	ReqClosedBy        string // who closed the client's request pipe reader first
 	ServerCtxCancelled bool
 	AbortedByReqBody   bool // the exchange was aborted because reading the caller's request body failed
-	CancelDeferred     bool // a cancellation arrived while the body sender was blocked in Read after the response was handed over
+	// WindowFull is closed when the transport has taken ReqWindow bytes that the
+	// handler has not read (the client's Write is then pending in mid-body).
+	WindowFull     chan struct{}
+	windowFullOnce sync.Once
+	CancelDeferred bool // a cancellation arrived while the body sender was blocked in Read after the response was handed over
 }
 
 func (e *Exchange) IsDone() bool      { e.mu.Lock(); defer e.mu.Unlock(); return e.Done }
@@ -80,7 +84,11 @@ func (e *Exchange) GotResponse() bool { e.mu.Lock(); defer e.mu.Unlock(); return
 // WasCancelDeferred: the request context ended while the HTTP/2 body sender
 // was blocked reading the caller's idle request body after the response had
 // been handed over, so the transport did not notice it at that moment.
-func (e *Exchange) WasCancelDeferred() bool { e.mu.Lock(); defer e.mu.Unlock(); return e.CancelDeferred }
+func (e *Exchange) WasCancelDeferred() bool {
+	e.mu.Lock()
+	defer e.mu.Unlock()
+	return e.CancelDeferred
+}
 
 // Transport implements connect.HTTPClient.
 type Transport struct {
@@ -111,6 +119,11 @@ type Transport struct {
 	// that the body is closed eventually); used by hostile scenarios in which
 	// nothing but the library itself can release a blocked Send.
 	NoCloseReq bool
+	// ReqWindow bounds, in eager mode, how many request bytes the transport
+	// takes beyond what the handler has read (a finite flow-control window;
+	// 0 = unbounded).  With a handler that does not read, the transport takes
+	// exactly ReqWindow bytes and then leaves the client's Write pending.
+	ReqWindow int
 	// ReqChunk is the size of the transport's reads of the request body in
 	// eager mode (default 32 KiB).  A small value makes the transport take each
 	// message the client writes in several pieces, so that a close of the
@@ -244,6 +257,29 @@ func (b *sbuf) breakWith(err error) {
 	b.mu.Unlock()
 }
 
+// room blocks until fewer than limit bytes are buffered (or the buffer has a
+// terminal condition) and returns how many more may be buffered.
+func (b *sbuf) room(limit int, onFull func()) int {
+	for {
+		b.mu.Lock()
+		if b.err != nil {
+			b.mu.Unlock()
+			return -1 // nobody will read any more
+		}
+		if len(b.data) < limit {
+			n := limit - len(b.data)
+			b.mu.Unlock()
+			return n
+		}
+		ch := b.notify
+		b.mu.Unlock()
+		if onFull != nil {
+			onFull()
+		}
+		<-ch
+	}
+}
+
 // read blocks until data or a terminal condition is available.
 func (b *sbuf) read(p []byte) (int, error) {
 	for {
@@ -251,6 +287,7 @@ func (b *sbuf) read(p []byte) (int, error) {
 		if len(b.data) > 0 {
 			n := copy(p, b.data)
 			b.data = b.data[n:]
+			b.wake() // a bounded writer may be waiting for room
 			b.mu.Unlock()
 			return n, nil
 		}
@@ -295,9 +332,9 @@ type call struct {
 	// Read after the response had been handed over; it takes effect when that
 	// Read returns.
 	cancelPending bool
-	aborted      chan struct{}
-	abortOnce    sync.Once
-	abortErr     error
+	aborted       chan struct{}
+	abortOnce     sync.Once
+	abortErr      error
 }
 
 // reqBodyFailed: reading the request body the caller supplied failed under the
@@ -391,10 +428,11 @@ func (t *Transport) Do(req *http.Request) (*http.Response, error) {
 		proto = 2
 	}
 	ex := &Exchange{
-		Method:    req.Method,
-		URL:       req.URL.String(),
-		ReqProto:  proto,
-		ReqHeader: canonicalClone(req.Header),
+		Method:     req.Method,
+		URL:        req.URL.String(),
+		ReqProto:   proto,
+		ReqHeader:  canonicalClone(req.Header),
+		WindowFull: make(chan struct{}),
 	}
 	serverCtx, serverCancel := context.WithCancel(context.Background())
 	c := &call{
@@ -537,6 +575,9 @@ func (c *call) serve(rw http.ResponseWriter, sreq *http.Request) {
 		c.finishResponse()
 		close(c.done)
 		c.serverCancel()
+		if c.reqBuf != nil && c.t.ReqWindow > 0 {
+			c.reqBuf.finish(errors.New("memhttp: handler returned")) // releases a sender waiting for window
+		}
 		if c.t.NoCloseReq {
 			// a transport that leaves the request body alone once the response is over
 		} else if c.t.SyncCloseReq {
@@ -637,10 +678,21 @@ func (c *call) pump() {
 	buf := make([]byte, size)
 	for {
 		c.t.gate("T.pump")
+		rbuf := buf
+		if w := c.t.ReqWindow; w > 0 {
+			room := c.reqBuf.room(w, func() { c.ex.windowFullOnce.Do(func() { close(c.ex.WindowFull) }) })
+			if room < 0 {
+				return // the handler is gone: the transport stops sending
+			}
+			if room < len(rbuf) {
+				rbuf = buf[:room]
+			}
+			c.t.gate("T.pump.window")
+		}
 		c.mu.Lock()
 		c.inBodyRead = true
 		c.mu.Unlock()
-		n, err := c.req.Body.Read(buf)
+		n, err := c.req.Body.Read(rbuf)
 		c.mu.Lock()
 		c.inBodyRead = false
 		pending := c.cancelPending
